@@ -9,6 +9,9 @@ from concurrent.futures import ThreadPoolExecutor
 
 import z3
 
+import itertools
+_file_ctr = itertools.count()
+
 SOLVERS = [
     ('z3-5.1', ['z3-new', '-smt2', '-T:{t}']),
     ('z3-4.8', ['/usr/bin/z3', '-smt2', '-T:{t}']),
@@ -68,7 +71,7 @@ class Result:
 def discharge_one(ob, text, workdir, timeout, second_opinion=False):
     r = Result(ob)
     r.smt_sha = hashlib.sha256(text.encode()).hexdigest()[:16]
-    path = os.path.join(workdir, r.smt_sha + '.smt2')
+    path = os.path.join(workdir, '%s_%d.smt2' % (r.smt_sha, next(_file_ctr)))
     with open(path, 'w') as fh:
         fh.write(text)
     answers = {}
